@@ -240,7 +240,7 @@ def get_trace(binary, h, tier, prop_name, workdir, timeout=900):
     cmd = ["cbmc", binary, "--function", h["function"], "--unwind", str(unwind)]
     if unwindset:
         cmd += ["--unwindset", ",".join(unwindset)]
-    cmd += CBMC_FLAGS + SOLVERS[solver] + list(h.get("cbmc_extra", [])) + ["--json-ui", "--trace", "--property", prop_name]
+    cmd += CBMC_FLAGS + SOLVERS[solver] + list(h.get("cbmc_extra", [])) + list(t.get("cbmc_extra", [])) + ["--json-ui", "--trace", "--property", prop_name]
     env = dict(os.environ)
     if solver == "cvc5":
         env["PATH"] = os.path.join(VERIF, "env", "shim") + ":" + env["PATH"]
